@@ -85,6 +85,9 @@ def psd_checks(which):
     if rng.random() < 0.5:
         z = z + float(rng.uniform(-20, 20))          # maps with a non-zero mean (power at zero frequency)
     if which == 'parseval':
+        if rng.random() < 0.4:
+            z = z.copy()
+            z[rng.random((H, W)) < 0.3] = 0.0          # exact zeros in the map (zero-filled aperture, dead pixels) are samples like any other
         ux, uy, p = I.psd(z, dx, win)
         w = np.asarray(I.make_window(z, dx, win), dtype=float)
         check('shape', p.shape == (H, W) and ux.shape == (H, W) and uy.shape == (H, W))
@@ -136,6 +139,10 @@ def psd_checks(which):
                 check('open-bottomed-band-starts-at-zero', bool(np.isclose(float(I.bandlimited_rms(r, p, fhigh=c)), f(0, c), rtol=1e-9)))
                 check('lone-long-period-is-the-open-topped-band', bool(np.isclose(float(I.bandlimited_rms(r, p, wlhigh=1 / a)), f(a, top), rtol=1e-9)))
                 check('lone-short-period-is-the-band-from-zero', bool(np.isclose(float(I.bandlimited_rms(r, p, wllow=1 / c)), f(0, c), rtol=1e-9)))
+            # the band [0, 0] is the zero-frequency sample alone: an edge that is exactly zero is an edge, not "no edge"
+            dc = f(0, 0)
+            check('dc-only-band', bool(dc <= f(0, a) + 1e-15 and np.isclose(dc ** 2, p[H // 2, W // 2] * (1 / (W * dx)) * (1 / (H * dx)), rtol=1e-9, atol=1e-300)
+                                       and np.isclose(f(0, a) ** 2, dc ** 2 + f(rs[1] / 2, a) ** 2, rtol=1e-9, atol=1e-14)))
             # a band that starts at zero frequency contains the zero-frequency sample
             check('band-from-zero-includes-dc', bool(np.isclose(f(0, c) ** 2, f(0, a) ** 2 + f(a, c) ** 2, rtol=1e-9, atol=1e-14)
                                                      and f(0, a) ** 2 >= p[H // 2, W // 2] / (W * dx) / (H * dx) * 0.24))
